@@ -254,6 +254,8 @@ pub fn main(a: Args) -> i32 {
             v.dedup();
             v
         };
+        let mut tried_replace = false;
+        let mut tried_replace_nonempty = false;
         for k in ks {
             write_tree(&srcd, &sc.src);
             write_tree(&dstd, &sc.dst);
@@ -366,6 +368,35 @@ pub fn main(a: Args) -> i32 {
                 out.line("specfail.txt", &format!("{} C09 re-running after a kill before call {} did not reproduce the uninterrupted result (exit {:?})", id, k, ro.code));
             }
             let _ = ko;
+            // ---- once per scenario: the crash left a staging file; the SOURCE is then replaced by other bytes of the same
+            // length that carry the OLD timestamp (restore from a backup, cp -p), and the same command runs again: what
+            // arrives must be the source as it is now - a leftover staging file is never a head start
+            let left_bytes: usize = crashed.iter().filter(|(p, _)| p.ends_with(".copia-tmp")).map(|(_, c)| c.len()).sum();
+            let has_left = crashed.keys().any(|p| p.ends_with(".copia-tmp"));
+            // (twice per scenario: the first kill point that leaves an EMPTY staging file, and the first that leaves bytes in it)
+            if !sc.oracle_only && has_left && ((left_bytes == 0 && !tried_replace) || (left_bytes > 0 && !tried_replace_nonempty)) {
+                if left_bytes == 0 { tried_replace = true; } else { tried_replace_nonempty = true; }
+                write_tree(&srcd, &sc.src);
+                write_tree(&dstd, &sc.dst);
+                let _ = std::fs::remove_file(&logf);
+                let _ = run_sync(&cx, &args, &envs(Some(k)));
+                std::thread::sleep(std::time::Duration::from_millis(60));
+                let left: Vec<String> = read_tree(&dstd).keys().filter(|p| p.ends_with(".copia-tmp")).cloned().collect();
+                if !left.is_empty() {
+                    let replaced: Vec<(String, Vec<u8>, i64)> = sc.src.iter().map(|(p, c, m)| (p.clone(), c.iter().map(|x| x ^ 0x77).collect(), *m)).collect();
+                    write_tree(&srcd, &replaced);
+                    let ro = run_sync(&cx, &args, &[]);
+                    let after = read_tree(&dstd);
+                    for (p, c, _) in &replaced {
+                        if identical(p) { continue; }
+                        if after.get(p) != Some(c) {
+                            nfail += 1;
+                            out.line("specfail.txt", &format!("{} C09 a run after a kill before call {} ({}) with the source replaced meanwhile (same length, old timestamp) did not deliver the source as it is now: {:?} holds {} bytes that are not the current source (exit {:?}; leftover staging files: {:?})", id, k, ["local", "push", "pull"][sc.dir as usize], p, after.get(p).map(|x| x.len()).unwrap_or(0), ro.code, left));
+                        }
+                    }
+                    out.count("rerun_after_source_replaced");
+                }
+            }
             id += 1;
         }
         if si % 3 == 0 {
